@@ -147,8 +147,12 @@ def materialise(W: dict, rng: Any = None, pool: Optional[Dict[str, list]] = None
                 continue
             e[k] = v
         for o in ent['outs']:
+            # An Output object carries a separator flag of its own (one parsed from a comma-separated string has it set).  The
+            # entity-lump writer imposes the map's separator, so in a 0x1B map the flag of the assigned object must not matter.
+            # (only there: a map without any output has no separator of its own and keeps each object's flag)
+            own_flag = o['comma'] or (W.get('base_sep') == 'esc' and (len(o['params']) + len(o['target'])) % 2 == 1)
             e.add_out(Output(o['out'], o['target'], o['inp'], o['params'], o['delay'], times=o['times'], inst_out=o['inst_out'],
-                             inst_in=o['inst_in'], comma_sep=o['comma']))
+                             inst_in=o['inst_in'], comma_sep=own_flag))
         if ei:
             vmf.add_ent(e)
         if ref is not None:
@@ -366,7 +370,8 @@ def value_world(seed: int, ci: int, W1: dict, **extra: Any) -> dict:
     if W1['sep'] != 'none':
         opts['sep'] = W1['sep']
     opts.update(extra)
-    return G.gen_world(rng, W1['layout'], **opts)
+    W2 = G.gen_world(rng, W1['layout'], **opts)
+    return W2
 
 
 def find_garbage_lumps(base_raw: dict, g: Any) -> List[str]:
@@ -397,6 +402,9 @@ def assign_and_reread(run, W1: dict, W2: dict, views: List[str], tmp: str, engin
         for name in G.TOUCH_ORDER:
             getattr(b, name)
         pool = {'planes': list(b.planes), 'texinfo': list(b.texinfo), 'vertexes': list(b.vertexes)}
+    # which separator the writer will impose is public state of the object (detected when the base entity lump was parsed;
+    # None = never parsed or no output seen: each Output object then keeps its own flag)
+    W2 = dict(W2, base_sep={False: 'esc', True: 'comma', None: 'none'}[b.out_comma_sep])
     vals = materialise(W2, rng, pool)
     if mutate is not None:
         try:
@@ -409,6 +417,11 @@ def assign_and_reread(run, W1: dict, W2: dict, views: List[str], tmp: str, engin
     if mutate is None:
         for v in views:
             before[v] = deep_view(v, vals[v], vals['ents'])
+        if 'ents' in before and W2['base_sep'] != 'none':
+            # what the file can say about an output's separator is the one separator the map uses
+            for ent in before['ents']:
+                for out in ent.get('outs', []):
+                    out[8] = W2['base_sep'] == 'comma'
     for v in views:
         setattr(b, v, vals[v])
     gpath = os.path.join(tmp, 'out.bsp')
